@@ -679,10 +679,22 @@ func payloadClause(c *core.Ctx, b *ob, pc *protoCodec, enc *ssa.Function) {
 				allZero = false
 			}
 		}
+		isZeroK := k.Value == nil || k.Value.String() == "0" || k.Value.String() == "false"
 		if len(ls) == 1 {
+			// one data edge decides the constant; on an edge that says "the value is zero" the
+			// constant is the zero one, on the true edge of a bool test it is not
+			for l := range ls {
+				if l.zero {
+					return isZeroK
+				}
+				if ifi, ok := l.blk.Instrs[len(l.blk.Instrs)-1].(*ssa.If); ok && l.succ == 0 {
+					if u, isU := ifi.Cond.(*ssa.UnOp); isU && isData(u) {
+						return !isZeroK
+					}
+				}
+			}
 			return true
 		}
-		isZeroK := k.Value == nil || k.Value.String() == "0" || k.Value.String() == "false"
 		return allZero && isZeroK
 	}
 	n := 0
